@@ -93,7 +93,7 @@ type vxFS struct {
 	// fault injection: while budget > 0 every call asks a fresh symbolic boolean whether it fails now
 	budget    int
 	faultSkip []string // ops that never fail by injection
-	quietStat bool     // pure queries (lstat/stat/readlink) are not made to fail once a mutating call has succeeded
+	quietStat bool     // pure queries (lstat/stat/readlink) are not made to fail once another call has succeeded
 	faultOp   string   // op of the (last) injected failure
 	faultIdx  int      // its index in the log
 	faultErr  syscall.Errno
@@ -331,8 +331,14 @@ func (fs *vxFS) fault(i int) (syscall.Errno, bool) {
 			return 0, false
 		}
 	}
-	if fs.quietStat && (op == "lstat" || op == "stat" || op == "readlink") && fs.mutationsDone() > 0 {
-		return 0, false
+	if fs.quietStat && (op == "lstat" || op == "stat" || op == "readlink") {
+		// environment assumption: an object that was just opened / created / changed can be stat'ed
+		for j := 0; j < i; j++ {
+			c := fs.log[j]
+			if c.err == nil && c.op != "lstat" && c.op != "stat" && c.op != "readlink" && c.op != "lookup" && c.op != "lookupid" {
+				return 0, false
+			}
+		}
 	}
 	if !vxBool("fault") {
 		return 0, false
@@ -861,24 +867,24 @@ func vxstub_os_File_Readdir(f *os.File, n int) ([]os.FileInfo, error) {
 
 func vxstub_os_user_LookupId(uid string) (*user.User, error) {
 	fs := vxfs
-	fs.begin(vxFSCall{op: "lookupid", path: uid})
+	i := fs.begin(vxFSCall{op: "lookupid", path: uid})
 	for _, u := range fs.users {
 		if u.Uid == uid {
 			return u, nil
 		}
 	}
-	return nil, &vxPlainErr{"user: unknown userid " + uid}
+	return nil, fs.fail(i, &vxPlainErr{"user: unknown userid " + uid})
 }
 
 func vxstub_os_user_Lookup(name string) (*user.User, error) {
 	fs := vxfs
-	fs.begin(vxFSCall{op: "lookup", path: name})
+	i := fs.begin(vxFSCall{op: "lookup", path: name})
 	for _, u := range fs.users {
 		if u.Username == name {
 			return u, nil
 		}
 	}
-	return nil, user.UnknownUserError(name)
+	return nil, fs.fail(i, user.UnknownUserError(name))
 }
 
 // ---- Ufs on the model: server, connection, fids, one request at a time ----
